@@ -29,10 +29,16 @@ def mc_plan(prop: str, tier: str) -> List[Dict[str, Any]]:
     flow_small = [_flow(1, 0, 2, -1, [V, V, V]), _flow(2, 1, 0, -1, [V, B, V]), _flow(0, 0, 0, -1, [V, V])]
     flow_big = [_flow(A, P, N, -1, [V] * 4) for A in (1, 2) for P in (0, 1, 2) for N in (0, 2)] + \
                [_flow(A, P, 0, -1, [V, B, V, "unknown"]) for A in (0, 1, 3) for P in (0, 1)]
-    timed_small = [_flow(1, 0, 0, 2, [V, V]), _flow(2, 1, 1, -1, [V, V])]
-    timed_big = [_flow(A, P, N, W, [V] * 3) for A in (1, 2) for P in (0, 1) for N in (0, 2) for W in (-1, 2)]
+    # (2, 0, 0, 2): a saturated phase that ends during shutdown with the prefetcher parked on the prefetch semaphore --
+    # the configuration in which the drain-timeout deadline of C05 is tightest (see TimeoutBase in RxProps.tla)
+    timed_small = [_flow(1, 0, 0, 2, [V, V]), _flow(2, 1, 1, -1, [V, V]), _flow(2, 0, 0, 2, [V, V])]
+    timed_big = [_flow(1, P, N, 2, [V] * 3) for P in (0, 1) for N in (0, 2)] + \
+                [_flow(2, P, 2, W, [V] * 3) for P in (0, 1) for W in (-1, 2)] + \
+                [_flow(2, P, 0, W, [V] * 2) for P in (0, 1) for W in (-1, 2)] + [_flow(0, 0, 0, 2, [V] * 2)]
+    timed_deep = [_flow(2, 0, 0, 2, [V] * 3)]
     sat = [_flow(A, P, 0, -1, [V] * (A + P + 3)) for A in (1, 2) for P in (0, 1)]
-    sat_big = [_flow(A, P, 0, -1, [V] * (A + P + 3)) for A in (1, 2, 3) for P in (0, 1, 2)]
+    sat_big = [_flow(A, P, 0, -1, [V] * (A + P + 3)) for A in (1, 2) for P in (0, 1, 2)] + \
+              [_flow(3, P, 0, -1, [V] * (3 + P + 2)) for P in (0, 1)]
     mw1 = [{"pre": "async", "post": "sync", "onerr": "sync", "postsave": "sync", "replace": True}]
     mw2 = mw1 + [{"pre": "sync", "onerr": "async", "postsave": "async"}]
 
@@ -63,7 +69,8 @@ def mc_plan(prop: str, tier: str) -> List[Dict[str, Any]]:
         "C01": [dict(cfgs=flow_small if q else flow_big, outcomes=["ret"], max_now=0)],
         "C03": [dict(cfgs=flow_small if q else flow_big, outcomes=["ret", "exc"], max_now=0)],
         "C04": [dict(cfgs=sat if q else sat_big, outcomes=["ret"], max_now=0)],
-        "C05": [dict(cfgs=timed_small if q else timed_big, outcomes=["ret"], max_now=9 if q else 10)],
+        "C05": [dict(cfgs=timed_small, outcomes=["ret"], max_now=9)] if q else
+               [dict(cfgs=timed_big, outcomes=["ret"], max_now=10), dict(cfgs=timed_deep, outcomes=["ret"], max_now=8)],
         "C02": [dict(cfgs=pipe_small if q else pipe_big, outcomes=oc_all, max_now=0 if q else 3)],
         "C07": [dict(cfgs=pipe_small if q else pipe_big, outcomes=oc_all + ["base"], max_now=0 if q else 3)],
         "C10": [dict(cfgs=pipe_small if q else pipe_big, outcomes=oc_all, max_now=0)],
@@ -102,6 +109,7 @@ def families(prop: str, tier: str, seed: int) -> List[Dict[str, Any]]:
         raise KeyError(prop)
     if prop in ("C01", "C02", "C03", "C04", "C06", "C07", "C12"):
         s += g.gen_api(seed, 150 * k)
+    s += g.gen_cli(seed, 200 * k)
     # witnesses of open known findings and regression scenarios of fixed ones are always executed
     for kf in common.known_findings():
         if kf["property"] == prop:
